@@ -162,22 +162,26 @@ def pipeline(ctx, replay_case=None):
         for c in cs:
             c["extra"] = {"lazy": lazy}
         allc += cs
+        if tag == "single" and not q:
+            # every operation x every class again under the other concretisations of each class
+            for k in (1, 2, 3):
+                allc += [dict(c, id=c["id"] + k * 1000000, extra={"lazy": False, "conc": k}) for c in cs]
         bounds[tag] = {"ops": len(set(ops)), "depth": depth, "behaviours": len(cs), "lazy_pass": lazy,
                        "args": {k: sorted(v) for k, v in args.items()} if args is not WIDE else "all classes"}
     ctx.exhaustive = True
     # seeded random long behaviours over the whole alphabet; -simulate evaluates every successor at every step, so each
     # run draws from pools narrowed by rotation (run k of seed s uses rotation s + k) and ends in a save entry point
-    d = 10 if q else 24
-    for k in range(1 if q else 6):
+    d = 10 if q else 16
+    for k in range(1 if q else 4):
         r = ctx.seed + k
         pools = small(r, TextC=rot(TEXTS, r, 2) | rot(HOSTILE, r), FmtC=rot(FMTS, r, 2), NameC=rot(NAMES, r, 2),
                       KindC={"default", "first", "even"}, RenderImgC={"none", "png"}, ReopenC={"mem", "file"}, PrepC={True, False})
         cs = ctx.tlc_gen("Pkg_MC.tla", gencfg(ctx, "gen_sim%d.cfg" % k, ALLOPS, pools, d, last=["ToBytes", "Save"]),
-                         "sim%d" % k, mode="sim", num=25 if q else 150, depth=d + 1, seed_off=k, limit=60 if q else 400)
+                         "sim%d" % k, mode="sim", num=25 if q else 100, depth=d + 1, seed_off=k, limit=60 if q else 300)
         for c in cs:
             c["extra"] = {"lazy": True}
         allc += cs
-    bounds["sim"] = {"depth": d, "runs": 1 if q else 6}
+    bounds["sim"] = {"depth": d, "runs": 1 if q else 4}
     for c in allc:
         for s in c["steps"]:
             cnt[s["op"]] += 1
